@@ -30,6 +30,7 @@ TECHNIQUE = 'fault injection enumerated over crash points (sys.settrace line eve
 LEVEL_TEXT = 'KeyboardInterrupt injected at enumerated line-granular crash points of generated counts; renderers must be total and the record a prefix'
 LEVEL_NOTE = 'line granularity under CPython 3.12 tracing; interrupts between two bytecodes of one line or inside C code are not reachable'
 MARK = '** count interrupted; this round is incomplete **'
+PERMS = [(0, 1, 2), (1, 2, 0), (2, 0, 1), (0, 2, 1), (1, 0, 2), (2, 1, 0)]
 _DROOP = os.path.join(os.path.realpath(REPO), 'droop') + os.sep
 
 
@@ -208,7 +209,9 @@ def check(wrapper):
         where = tr.where
         out = {}
         bad = False
-        for j in order:
+        # every crash point uses one of the six renderer orders, rotating with k (the drawn order only sets the phase)
+        korder = PERMS[(k + order[0] * 2 + (1 if order[1] > order[2] else 0)) % 6]
+        for j in korder:
             nm = names[j]
             try:
                 out[nm] = getattr(E, nm)(True)
